@@ -1008,9 +1008,25 @@ impl<'a> Lexer<'a> {
                                 return TokenKind::Invalid('u');
                             }
                         }
+                        Some((_, '\n' | '\u{2028}' | '\u{2029}')) => {
+                            // Line continuation
+                        }
+                        Some((_, '\r')) => {
+                            // Line continuation: CR or CR LF
+                            if self.peek() == Some('\n') {
+                                self.advance();
+                            }
+                        }
                         Some((_, c)) => value.push(c),
                         None => break,
                     }
+                }
+                Some((_, '\r')) => {
+                    // CR and CR LF in a template are one LF
+                    if self.peek() == Some('\n') {
+                        self.advance();
+                    }
+                    value.push('\n');
                 }
                 Some((_, c)) => value.push(c),
                 None => break,
@@ -1102,9 +1118,25 @@ impl<'a> Lexer<'a> {
                             return TokenKind::Invalid('u');
                         }
                     }
+                    Some((_, '\n' | '\u{2028}' | '\u{2029}')) => {
+                        // Line continuation
+                    }
+                    Some((_, '\r')) => {
+                        // Line continuation: CR or CR LF
+                        if self.peek() == Some('\n') {
+                            self.advance();
+                        }
+                    }
                     Some((_, c)) => value.push(c),
                     None => break,
                 },
+                Some((_, '\r')) => {
+                    // CR and CR LF in a template are one LF
+                    if self.peek() == Some('\n') {
+                        self.advance();
+                    }
+                    value.push('\n');
+                }
                 Some((_, c)) => value.push(c),
                 None => break,
             }
@@ -1158,7 +1190,7 @@ impl<'a> Lexer<'a> {
                         let value = i64::from_str_radix(&num_str, 16).unwrap_or(0);
                         return TokenKind::BigInt(value.to_string());
                     }
-                    return TokenKind::Number(i64::from_str_radix(&num_str, 16).unwrap_or(0) as f64);
+                    return TokenKind::Number(radix_literal_value(&num_str, 16));
                 }
                 Some('o' | 'O') => {
                     // Octal
